@@ -13,7 +13,58 @@ use crate::canon::*;
 use crate::lean::unhex;
 use crate::transport::Shared;
 
+/// a fetch or poll result kept alive, with a copy of everything it exposed when it was first read
+pub enum KeptVal {
+    Fetch(Vec<kafka::client::fetch::Response>),
+    Poll(kafka::consumer::MessageSets),
+}
+
+pub struct Kept {
+    pub val: Box<KeptVal>,
+    pub snapshot: String,
+}
+
+fn read_kept(v: &KeptVal) -> String {
+    match v {
+        KeptVal::Fetch(rs) => fmt_fetch(rs),
+        KeptVal::Poll(ms) => fmt_poll(ms),
+    }
+}
+
+/// allocation churn: many blocks of many sizes, filled with a pattern and freed in a scattered order, so that freed
+/// memory of earlier results is likely to be handed out again and overwritten
+fn churn(rounds: usize, seed: u64) {
+    let mut x = seed | 1;
+    let mut next = || {
+        x ^= x << 13;
+        x ^= x >> 7;
+        x ^= x << 17;
+        x
+    };
+    for _ in 0..rounds {
+        let mut blocks: Vec<Vec<u8>> = Vec::new();
+        for _ in 0..200 {
+            let sz = match next() % 6 {
+                0 => 8 + (next() % 64) as usize,
+                1 => 64 + (next() % 256) as usize,
+                2 => 16 + (next() % 128) as usize,
+                3 => 512 + (next() % 4096) as usize,
+                4 => 1 + (next() % 32) as usize,
+                _ => 84,
+            };
+            blocks.push(vec![0xD5u8; sz]);
+        }
+        while !blocks.is_empty() {
+            let i = (next() % blocks.len() as u64) as usize;
+            let b = blocks.swap_remove(i);
+            std::hint::black_box(&b);
+            drop(b);
+        }
+    }
+}
+
 pub struct Session {
+    pub kept: Vec<Option<Kept>>,
     pub world: Shared,
     pub client: Option<KafkaClient>,
     pub cons: Option<Consumer>,
@@ -79,7 +130,7 @@ fn opt_bytes(v: &str) -> Option<Vec<u8>> {
 
 impl Session {
     pub fn new(world: Shared) -> Session {
-        Session { world, client: None, cons: None, prod: None, results: Vec::new() }
+        Session { kept: Vec::new(), world, client: None, cons: None, prod: None, results: Vec::new() }
     }
 
     fn target(&mut self, tgt: &str) -> Option<&mut KafkaClient> {
@@ -120,7 +171,7 @@ impl Session {
         // operations on an object that does not exist (its creation failed earlier in the scenario)
         let needs = match toks.as_slice() {
             ["c", ..] => Some(self.client.is_some()),
-            ["k", ..] | ["poll"] | ["seek", ..] | ["consume", ..] | ["commit"] | ["subscriptions"] | ["last_consumed", ..]
+            ["k", ..] | ["poll"] | ["poll_keep"] | ["seek", ..] | ["consume", ..] | ["commit"] | ["subscriptions"] | ["last_consumed", ..]
             | ["consumer_into_client"] => Some(self.cons.is_some()),
             ["p", ..] | ["send_all", ..] | ["send", ..] | ["producer_into_client"] => Some(self.prod.is_some()),
             ["consumer_create", "client", ..] | ["producer_create", "client", ..] => Some(self.client.is_some()),
@@ -189,6 +240,82 @@ impl Session {
                 res(self.target(tgt).unwrap().fetch_topic_offsets(&t, time_of(time.parse().unwrap())), |ps| {
                     fmt_offsets(std::iter::once((t.clone(), ps.into_iter().map(|p| (p.partition, p.offset)).collect())).collect())
                 })
+            }
+            [tgt, "fetch_keep", args @ ..] => {
+                let topics: Vec<String> = args.chunks(4).map(|c| s(c[0])).collect();
+                let reqs: Vec<FetchPartition<'_>> = args
+                    .chunks(4)
+                    .zip(topics.iter())
+                    .map(|(c, t)| FetchPartition::new(t, c[1].parse().unwrap(), c[2].parse().unwrap()).with_max_bytes(c[3].parse().unwrap()))
+                    .collect();
+                match self.target(tgt).unwrap().fetch_messages(&reqs) {
+                    Ok(rs) => {
+                        let snap = fmt_fetch(&rs);
+                        self.kept.push(Some(Kept { val: Box::new(KeptVal::Fetch(rs)), snapshot: snap.clone() }));
+                        snap
+                    }
+                    Err(e) => format!("err {}", err_str(&e)),
+                }
+            }
+            ["poll_keep"] => match self.cons.as_mut().unwrap().poll() {
+                Ok(ms) => {
+                    let snap = fmt_poll(&ms);
+                    self.kept.push(Some(Kept { val: Box::new(KeptVal::Poll(ms)), snapshot: snap.clone() }));
+                    snap
+                }
+                Err(e) => format!("err {}", err_str(&e)),
+            },
+            ["keep_check"] => {
+                // re-read every view of every live result and compare with what it showed when it was new
+                for (i, k) in self.kept.iter().enumerate() {
+                    if let Some(k) = k {
+                        let now = read_kept(&k.val);
+                        if now != k.snapshot {
+                            return format!("corrupt result#{} now `{}` was `{}`", i, now, k.snapshot);
+                        }
+                    }
+                }
+                "ok".into()
+            }
+            ["keep_move", mode] => {
+                // move every live result: through a new box, into a vector and back, through another thread
+                let taken: Vec<Option<Kept>> = std::mem::take(&mut self.kept);
+                let moved: Vec<Option<Kept>> = match *mode {
+                    "box" => taken.into_iter().map(|k| k.map(|k| Kept { val: Box::new(*k.val), snapshot: k.snapshot })).collect(),
+                    "vec" => {
+                        let mut v: Vec<Option<Kept>> = Vec::with_capacity(1);
+                        for k in taken {
+                            v.push(k); // repeated growth moves the elements
+                        }
+                        v.into_iter().rev().collect::<Vec<_>>().into_iter().rev().collect()
+                    }
+                    _ => {
+                        struct SendIt(Vec<Option<Kept>>);
+                        unsafe impl Send for SendIt {}
+                        let h = std::thread::spawn(move || {
+                            let s = SendIt(taken);
+                            // read in the other thread as well
+                            for k in s.0.iter().flatten() {
+                                std::hint::black_box(read_kept(&k.val));
+                            }
+                            s
+                        });
+                        h.join().unwrap().0
+                    }
+                };
+                self.kept = moved;
+                "ok".into()
+            }
+            ["keep_drop", i] => {
+                let i: usize = i.parse().unwrap();
+                if i < self.kept.len() {
+                    self.kept[i] = None;
+                }
+                "ok".into()
+            }
+            ["churn", n] => {
+                churn(n.parse().unwrap(), 0x9E37_79B9);
+                "ok".into()
             }
             [tgt, "fetch_messages", args @ ..] => {
                 let topics: Vec<String> = args.chunks(4).map(|c| s(c[0])).collect();
